@@ -333,6 +333,157 @@ example : ∃ s, Reach cntObj 5 s ∧ s.log.map (fun e => (e.tid, e.ret, e.tInv,
   exact ⟨_, r6, by simp [St.init, cntObj], by simp [cntObj]⟩
 end Example
 
+/-! ## Memoising reads
+
+Reading calls of the real enforcer are not read-only on the REPRESENTATION: `RoleManager._get_role` creates the role
+object of a name it has not met, `DomainManager._get_role_manager` builds and caches the manager of a domain it has not
+served, `enforce` re-derives the `g` closures into the function map. `Disciplined.readPure` is therefore stated for an
+abstraction of the state: `C` is the object as implemented (state `σ`), `O` the object the answers are about (state `α`,
+`abs : σ → α`), and every call of `C` does on the abstraction what `O` does and returns what `O` returns (`Memo`): a read
+may change the representation, never the abstraction. The concurrent system over `C` (where two overlapping readers
+each work on the representation they saw at `begin`, so the memo of one may even be LOST at the other's commit) then
+simulates the concurrent system over `O` step by step, hence is linearizable against `O`, and a read never changes the
+answer of any later call (`memo_read_unobservable`).
+
+What this covers after the repair of F33 (role created once, under the manager's own lock, published when linked):
+the cached per-domain manager, the role object of a new name when NO matching function is set (a node without links:
+no query shows it), the derived `g` closures. What it does not cover: with a role matching function, the first sight of
+a name makes it a node that `get_users_for_role` of its roles lists from then on — on a plain enforcer too — so that read
+changes the abstraction; those executions are checked by the harness (first-sight stream) against ALL sequential orders,
+not proved here. -/
+
+/-- `C` implements `O` up to `abs`: same lock modes, same answers, same effect on the abstraction -/
+structure Memo {α : Type} (C : Obj σ Op Ret) (O : Obj α Op Ret) (abs : σ → α) : Prop where
+  mode : ∀ o, C.mode o = O.mode o
+  state : ∀ o s, abs (C.apply o s).1 = (O.apply o (abs s)).1
+  ret : ∀ o s, (C.apply o s).2 = (O.apply o (abs s)).2
+
+def mapTh {α : Type} (abs : σ → α) : Th σ Op → Th α Op
+  | .idle => .idle
+  | .waiting o ti => .waiting o ti
+  | .inside o sn ti => .inside o (abs sn) ti
+
+def mapSt {α : Type} (abs : σ → α) (s : St σ Op Ret) : St α Op Ret :=
+  { cur := abs s.cur, th := fun u => mapTh abs (s.th u), log := s.log, now := s.now }
+
+theorem mapTh_upd {α : Type} (abs : σ → α) (f : Nat → Th σ Op) (t : Nat) (v : Th σ Op) :
+    (fun u => mapTh abs (upd f t v u)) = upd (fun u => mapTh abs (f u)) t (mapTh abs v) := by
+  funext u; simp only [upd]; split <;> rfl
+
+theorem mapSt_upd {α : Type} (abs : σ → α) (cur : σ) (f : Nat → Th σ Op) (t : Nat) (v : Th σ Op) (log : List (Entry Op Ret)) (now : Nat) :
+    mapSt abs { cur := cur, th := upd f t v, log := log, now := now } =
+      { cur := abs cur, th := upd (fun u => mapTh abs (f u)) t (mapTh abs v), log := log, now := now } := by
+  simp only [mapSt, mapTh_upd]
+
+theorem mapTh_inside {α : Type} (abs : σ → α) {x : Th σ Op} {o : Op} {a : α} {ti : Nat}
+    (h : mapTh abs x = .inside o a ti) : ∃ sn, x = .inside o sn ti := by
+  cases x with
+  | idle => cases h
+  | waiting o' ti' => cases h
+  | inside o' sn ti' => simp only [mapTh] at h; cases h; exact ⟨sn, rfl⟩
+
+theorem step_sim {α : Type} (C : Obj σ Op Ret) (O : Obj α Op Ret) (abs : σ → α) (hm : Memo C O abs)
+    {s t : St σ Op Ret} (st : Step C s t) : Step O (mapSt abs s) (mapSt abs t) := by
+  have noW : ¬ writerInside C s → ¬ writerInside O (mapSt abs s) := by
+    rintro h ⟨u, o, a, ti, hu, hw⟩
+    obtain ⟨sn, hsn⟩ := mapTh_inside abs hu
+    exact h ⟨u, o, sn, ti, hsn, by rw [hm.mode]; exact hw⟩
+  have noL : ¬ lockedInside C s → ¬ lockedInside O (mapSt abs s) := by
+    rintro h ⟨u, o, a, ti, hu, hw⟩
+    obtain ⟨sn, hsn⟩ := mapTh_inside abs hu
+    exact h ⟨u, o, sn, ti, hsn, by rw [hm.mode]; exact hw⟩
+  cases st with
+  | invoke t o hidle =>
+    have h := Step.invoke (O := O) (mapSt abs s) t o (by simp [mapSt, hidle, mapTh])
+    rw [mapSt_upd]; exact h
+  | beginR t o ti hwait hmo hnw =>
+    have h := Step.beginR (O := O) (mapSt abs s) t o ti (by simp [mapSt, hwait, mapTh]) (by rw [← hm.mode]; exact hmo) (noW hnw)
+    rw [mapSt_upd]; exact h
+  | beginW t o ti hwait hmo hnl =>
+    have h := Step.beginW (O := O) (mapSt abs s) t o ti (by simp [mapSt, hwait, mapTh]) (by rw [← hm.mode]; exact hmo) (noL hnl)
+    rw [mapSt_upd]; exact h
+  | beginN t o ti hwait hmo =>
+    have h := Step.beginN (O := O) (mapSt abs s) t o ti (by simp [mapSt, hwait, mapTh]) (by rw [← hm.mode]; exact hmo)
+    rw [mapSt_upd]; exact h
+  | commit t o sn ti hin hmo =>
+    have h := Step.commit (O := O) (mapSt abs s) t o (abs sn) ti (by simp [mapSt, hin, mapTh]) (by rw [← hm.mode]; exact hmo)
+    rw [mapSt_upd, hm.state, hm.ret]; exact h
+  | commitN t o sn ti hin hmo =>
+    have h := Step.commitN (O := O) (mapSt abs s) t o (abs sn) ti (by simp [mapSt, hin, mapTh]) (by rw [← hm.mode]; exact hmo)
+    rw [mapSt_upd, hm.ret]; exact h
+
+theorem reach_sim {α : Type} (C : Obj σ Op Ret) (O : Obj α Op Ret) (abs : σ → α) (hm : Memo C O abs) (x : σ)
+    {s : St σ Op Ret} (r : Reach C x s) : Reach O (abs x) (mapSt abs s) := by
+  induction r with
+  | init => exact .init
+  | step _ st ih => exact .step ih (step_sim C O abs hm st)
+
+/-- reads that memoise: every concurrent execution of the object AS IMPLEMENTED returns, call by call, what the abstract
+    object returns in commit order, and ends in the abstract state that order produces — although readers change the
+    representation under the read lock (and may overwrite each other's memo) -/
+theorem memo_linearizable {α : Type} (C : Obj σ Op Ret) (O : Obj α Op Ret) (abs : σ → α) (hm : Memo C O abs)
+    (hd : Disciplined O) (x : σ) {s : St σ Op Ret} (r : Reach C x s) :
+    seqRun O.apply (abs x) (s.log.map (·.op)) = (abs s.cur, s.log.map (·.ret)) :=
+  linearizable O (abs x) hd (reach_sim C O abs hm x r)
+
+/-- ... and respects real time -/
+theorem memo_respects_real_time {α : Type} (C : Obj σ Op Ret) (O : Obj α Op Ret) (abs : σ → α) (hm : Memo C O abs)
+    (hd : Disciplined O) (x : σ) {s : St σ Op Ret} (r : Reach C x s)
+    (i j : Nat) (hi : i < s.log.length) (hj : j < s.log.length) (h : s.log[i].tCom < s.log[j].tInv) : i < j :=
+  respects_real_time O (abs x) hd (reach_sim C O abs hm x r) i j hi hj h
+
+/-- observational purity of a memoising read: after it, every call (and, by induction, every sequence of calls) answers
+    what it would have answered without it, and leaves the same abstract state -/
+theorem memo_read_unobservable {α : Type} (C : Obj σ Op Ret) (O : Obj α Op Ret) (abs : σ → α) (hm : Memo C O abs)
+    (hd : Disciplined O) (o : Op) (hr : C.mode o = .read) (s : σ) (os : List Op) :
+    (seqRun C.apply (C.apply o s).1 os).2 = (seqRun C.apply s os).2 ∧
+      abs (seqRun C.apply (C.apply o s).1 os).1 = abs (seqRun C.apply s os).1 := by
+  have habs : abs (C.apply o s).1 = abs s := by rw [hm.state, hd.readPure o _ (by rw [← hm.mode]; exact hr)]
+  have key : ∀ (os : List Op) (a b : σ), abs a = abs b →
+      (seqRun C.apply a os).2 = (seqRun C.apply b os).2 ∧ abs (seqRun C.apply a os).1 = abs (seqRun C.apply b os).1 := by
+    intro os
+    induction os with
+    | nil => intro a b h; exact ⟨rfl, h⟩
+    | cons p ps ih =>
+      intro a b h
+      have h1 : abs (C.apply p a).1 = abs (C.apply p b).1 := by rw [hm.state, hm.state, h]
+      have h2 : (C.apply p a).2 = (C.apply p b).2 := by rw [hm.ret, hm.ret, h]
+      have := ih _ _ h1
+      simp only [seqRun]
+      exact ⟨by rw [h2, this.1], this.2⟩
+  exact key os _ _ habs
+
+/-! non-vacuity: a counter whose `get` counts how often it was asked (a representation change under the read lock);
+    the abstraction forgets that statistic -/
+section MemoExample
+def memoCnt : Obj (Nat × Nat) CntOp Nat :=
+  { apply := fun o s => match o with | .get => ((s.1, s.2 + 1), s.1) | .incr => ((s.1 + 1, s.2), s.1),
+    mode := fun o => match o with | .get => .read | .incr => .write }
+
+theorem memoCnt_memo : Memo memoCnt cntObj Prod.fst := by
+  constructor
+  · intro o; cases o <;> rfl
+  · intro o s; cases o <;> rfl
+  · intro o s; cases o <;> rfl
+
+/-- the implemented object is NOT read-pure (so `linearizable` does not apply to it directly) ... -/
+example : ¬ Disciplined memoCnt := by
+  intro h
+  have := h.readPure .get (0, 0) rfl
+  simp [memoCnt] at this
+
+/-- ... but `memo_linearizable` does: e.g. a `get` by thread 0, committed -/
+example : ∃ s, Reach memoCnt (5, 0) s ∧ s.cur = (5, 1) ∧
+    seqRun cntObj.apply 5 (s.log.map (·.op)) = (5, s.log.map (·.ret)) := by
+  have r : Reach memoCnt (5, 0) _ :=
+    .step (.step (.step .init (.invoke _ 0 .get rfl)) (.beginR _ 0 .get 0 (by simp [upd, St.init]) rfl (by
+      rintro ⟨u, o, sn, ti, h, _⟩
+      simp only [upd, St.init] at h
+      split at h <;> cases h)))
+      (.commit _ 0 .get (5, 0) 0 (by simp [upd, St.init]) (by simp [memoCnt]))
+  exact ⟨_, r, by simp [memoCnt], memo_linearizable memoCnt cntObj Prod.fst memoCnt_memo cntObj_disciplined (5, 0) r⟩
+end MemoExample
+
 /-! ## Instantiating the lock modes with the regenerated table -/
 
 /-- a call of the SyncedEnforcer API: a plain-forward row of the generated table plus its arguments -/
